@@ -340,6 +340,20 @@ def si(x):
     return x
 
 
+class StrSub(str):
+    """text held as an instance of a str subclass"""
+
+
+def sl(s):
+    """a label / name argument: the same text as a plain str, as numpy's str_ (what indexing an array of labels gives) or as a str subclass"""
+    how = SCALARS[0]
+    if how == "np" and not s.endswith("\0"):
+        return np.str_(s)
+    if how == "py":
+        return StrSub(s)
+    return s
+
+
 def sf(bits):
     """a float32-valued scalar argument given as bit pattern"""
     v = f32(bits)[()]
@@ -396,7 +410,7 @@ def _build(kind, v, wide=False, vpstyle=0):
         fmt, n, freq, st, vol, rot, tr, flag, links, tracks = v
         d = Data3D(si(freq), si(n), pv(f32(vol)), pv(f32(rot).reshape(3, 3)), pv(f32(tr)), sf(st), Flags(flag), Data3dBlockFormat(fmt))
         for label, frames in tracks:
-            d.add_track(MarkerTrack(text(label), pv(frames_array(frames, 3, wide))))
+            d.add_track(MarkerTrack(sl(text(label)), pv(frames_array(frames, 3, wide))))
         if links or (fmt == 1 and len(tracks) % 2 == 1):
             d.links = np.array([tuple(l) for l in links], dtype=LinkType.btype)
         return d
@@ -405,7 +419,7 @@ def _build(kind, v, wide=False, vpstyle=0):
         freq, st, n, chans, tracks = v
         d = EMG(si(freq), si(n), sf(st))
         for ch, (label, frames) in zip(chans, tracks):
-            d.addSignal(EMGTrack(text(label), pv(frames_array(frames, 1, wide)[:, 0])), channel=si(ch))
+            d.addSignal(EMGTrack(sl(text(label)), pv(frames_array(frames, 1, wide)[:, 0])), channel=si(ch))
         return d
     if kind == "force3d":
         from basictdf.tdfForce3D import ForceTorque3D, ForceTorqueTrack
@@ -413,7 +427,7 @@ def _build(kind, v, wide=False, vpstyle=0):
         d = ForceTorque3D(si(freq), si(n), pv(f32(vol)), pv(f32(rot).reshape(3, 3)), pv(f32(tr)), sf(st))
         for label, frames in tracks:
             a = frames_array(frames, 9, wide)
-            d.add_track(ForceTorqueTrack(text(label), pv(a[:, 0:3].copy()), pv(a[:, 3:6].copy()), pv(a[:, 6:9].copy())))
+            d.add_track(ForceTorqueTrack(sl(text(label)), pv(a[:, 0:3].copy()), pv(a[:, 3:6].copy()), pv(a[:, 6:9].copy())))
         return d
     if kind == "platdata":
         from basictdf.tdfForcePlatformsData import ForcePlatformData, ForcePlatformsDataBlock
@@ -428,7 +442,7 @@ def _build(kind, v, wide=False, vpstyle=0):
         chans, plats = v
         d = ForcePlatformsCalibrationDataBlock()
         for ch, (label, size, pos) in zip(chans, plats):
-            d.add_platform(ForcePlatformInfo(text(label), pv(f32(size)), pv(f32(pos).reshape(4, 3))), channel=si(ch))
+            d.add_platform(ForcePlatformInfo(sl(text(label)), pv(f32(size)), pv(f32(pos).reshape(4, 3))), channel=si(ch))
         return d
     if kind == "data2d":
         from basictdf.tdfData2D import Data2D, Data2DFlags
@@ -467,12 +481,12 @@ def _build(kind, v, wide=False, vpstyle=0):
         from basictdf.tdfOpticalSystem import OpticalChannelData, OpticalSetupBlock, OpticalSetupBlockFormat
         fmt, chans = v
         return OpticalSetupBlock(OpticalSetupBlockFormat(fmt),
-                                 [OpticalChannelData(si(idx), text(l), text(t), text(nm), viewport(vp, vpstyle)) for idx, l, t, nm, vp in chans])
+                                 [OpticalChannelData(si(idx), sl(text(l)), sl(text(t)), sl(text(nm)), viewport(vp, vpstyle)) for idx, l, t, nm, vp in chans])
     if kind == "events":
         from basictdf.tdfEvents import Event, EventsDataType, TemporalEventsData, TemporalEventsDataFormat
         fmt, st, evs = v
         d = TemporalEventsData(TemporalEventsDataFormat(fmt), sf(st))
-        d.events = [Event(text(l), pv(f32(vals)), EventsDataType(k)) for l, k, vals in evs]
+        d.events = [Event(sl(text(l)), pv(f32(vals)), EventsDataType(k)) for l, k, vals in evs]
         return d
     raise KeyError(kind)
 
